@@ -44,7 +44,7 @@ def verify(d, demos):
         base = os.path.join(tmp, "base")
         os.makedirs(base)
         subprocess.run("git -C /repo archive HEAD | tar -x -C " + base, shell=True, check=True)
-        dd = subprocess.run(["diff", "-ruN", "--exclude=__pycache__", "--exclude=.pytest_cache", "--exclude=.git", "base/kingdon", "wt/kingdon"],
+        dd = subprocess.run(["diff", "-ruN", "--exclude=*.orig", "--exclude=*.rej", "--exclude=__pycache__", "--exclude=.pytest_cache", "--exclude=.git", "base/kingdon", "wt/kingdon"],
                             cwd=tmp, capture_output=True, text=True)
         res["rebased_patch"] = dd.stdout.replace("--- base/", "--- a/").replace("+++ wt/", "+++ b/")
         return res
